@@ -60,6 +60,24 @@ def run(tier, seed):
             for dis in f["disagreements"]:
                 v.violation("truncated / mutated input: zero-copy and owned decoders disagree (or offset outside input, or panic)",
                             {**case, "input": dis["input"][:300], "obs": dis["obs"]})
+    # nesting around the decoders' depth limit: both must draw the line at the same depth (whatever it is)
+    leaves = {"small integer": [97, 1], "atom": [119, 1, 97], "nil": [106], "binary": [109, 0, 0, 0, 1, 7], "big integer": [110, 9, 0, 1, 2, 3, 4, 5, 6, 7, 8, 9], "float": [70, 63, 248, 0, 0, 0, 0, 0, 0],
+              "pid": [88, 119, 1, 110, 0, 0, 0, 1, 0, 0, 0, 2, 0, 0, 0, 3], "empty tuple": [104, 0], "empty map": [116, 0, 0, 0, 0]}
+    raw = []
+    for depth in list(range(250, 262)) + [127, 128, 129, 510, 511, 512, 513, 1023, 1024, 1025]:
+        for lname, leaf in leaves.items():
+            raw.append({"id": len(raw), "what": f"{lname} inside {depth} nested one-element tuples", "bytes": [131] + [104, 1] * depth + leaf})
+            raw.append({"id": len(raw), "what": f"{lname} inside {depth} nested one-element lists", "bytes": [131] + [108, 0, 0, 0, 1] * depth + leaf + [106] * depth})
+            raw.append({"id": len(raw), "what": f"{lname} as the value of {depth} nested one-entry maps", "bytes": [131] + [116, 0, 0, 0, 1, 97, 1] * depth + leaf})
+    ip = os.path.join(lib.outdir(PID), "raw_in.ndjson")
+    op = os.path.join(lib.outdir(PID), "raw_out.ndjson")
+    lib.write_ndjson(ip, raw)
+    lib.harness(["etf-raw", ip, op])
+    for o in lib.read_ndjson(op):
+        r = raw[o["id"]]
+        v.case("nest" + r["what"])
+        judge(v, o["bor"], True, {"input": r["what"]})
+    v.cov["nesting_boundary_inputs"] = len(raw)
     # random deep terms
     count, depth, budget = (3000, 12, 4000) if thorough else (300, 8, 300)
     rp = os.path.join(lib.outdir(PID), "random.ndjson")
